@@ -32,6 +32,12 @@ def consumers():
         "DynamicThresholder(LLR)": lambda: (lambda m: (lambda x: m(x, reset=True)))(T.DynamicThresholder(input_type=L)),
         "Ensemble[LLR,Weighted,Hysteresis]": lambda: T.SoftBitEnsembleThresholder([T.LLRThresholder(), T.WeightedThresholder(weights=1.0, threshold=0.5, input_type=L), T.HysteresisThresholder(input_type=L)]),
         "RepetitionSoftBitDecoder(1, LLR)": lambda: T.RepetitionSoftBitDecoder(repetition_factor=1, input_type=L),
+        # the same consumers configured with the documented string spelling of the input type
+        "HysteresisThresholder('llr')": lambda: (lambda m: (lambda x: m(x, reset_state=True)))(T.HysteresisThresholder(input_type="llr")),
+        "WeightedThresholder(1.0, 'llr')": lambda: T.WeightedThresholder(weights=1.0, threshold=0.5, input_type="llr"),
+        "DynamicThresholder('llr')": lambda: (lambda m: (lambda x: m(x, reset=True)))(T.DynamicThresholder(input_type="llr")),
+        "AdaptiveThresholder(mean, 'llr')": lambda: T.AdaptiveThresholder(method="mean", input_type="llr"),
+        "RepetitionSoftBitDecoder(1, 'llr')": lambda: T.RepetitionSoftBitDecoder(repetition_factor=1, input_type="llr"),
         "llr_to_bits": lambda: U.llr_to_bits,
         "sign_to_bin(sign)": lambda: (lambda x: U.sign_to_bin(torch.sign(x))),
     }
